@@ -204,3 +204,30 @@ Proof.
   rewrite service_all_cons. rewrite IH. unfold service_response. cbn [andb responses redirects].
   rewrite <- app_assoc. destruct rs as [|r2 rs']; reflexivity.
 Qed.
+
+(* ---------------------------------------------------------------- several requests on one Patron *)
+
+(* the responses a Patron parses while serving a list of requests one after the other: for each
+   request its redirect responses, then its final response *)
+Definition flatten_chains (chains : list (list (Z * Z) * (Z * Z))) : list (Z * Z) :=
+  concat (map (fun c => fst c ++ [snd c]) chains).
+
+Definition chain_ok (c : list (Z * Z) * (Z * Z)) : Prop :=
+  Forall (fun r => is_redirect_status (fst r) = true) (fst c) /\ is_redirect_status (fst (snd c)) = false.
+
+Lemma chains_in_order_gen : forall chains p, redirects p = [] -> Forall chain_ok chains ->
+  service_all true p (flatten_chains chains) =
+  {| redirects := [];
+     responses := responses p ++
+                  map (fun c => {| rs_status := fst (snd c); rs_tag := snd (snd c); rs_redirects := fst c |}) chains;
+     waited := match chains with [] => waited p | _ => false end |}.
+Proof.
+  induction chains as [|[rs [fs ft]] cs IH]; intros p Hp H.
+  - cbn. rewrite app_nil_r. destruct p; cbn in *; subst; reflexivity.
+  - inversion H as [|x l [Hr Hf] Hcs]; subst. cbn [fst snd] in Hr, Hf.
+    unfold flatten_chains. cbn [map concat fst snd]. rewrite service_all_app.
+    rewrite (chain_in_order_gen rs fs ft p Hr Hf). rewrite Hp. cbn [app].
+    fold (flatten_chains cs). rewrite IH; [|reflexivity|exact Hcs].
+    cbn [responses redirects waited map fst snd]. rewrite <- app_assoc. cbn [app].
+    destruct cs; reflexivity.
+Qed.
